@@ -40,6 +40,12 @@
       watermark filter from the STORE's manifest (last frame) and only the SINCE of the delta query from the catalog
       entry ([n_cat]).
 
+    - Several remembered queries live side by side in the catalog, each with its own store directory
+      (catalog/entry.rs: [storage_path = root_dir.join(alias)]) and its own catalog entry; names are compared
+      exactly (case-sensitively) by the catalog index, the duplicate check and the path.  The model identifies a view
+      by a number; two spellings are the same number iff they are the same string (the harness keeps that map), so
+      [lookup] / [update] are the whole name semantics and an operation on one view touches no other ([frame_property]).
+
     Not modelled: ORDER BY / OFFSET / aggregates / sequences in the remembered query, retention policies,
     batches above 32768 rows, a SHOW racing with a flush (SHOW waits for in-flight flushes first). *)
 From Coq Require Import NArith List Bool.
@@ -64,7 +70,8 @@ Record event := mkEvent {
   e_pt : N;     (* payload time field (a "datetime" field of the schema) *)
   e_id : N;     (* event id: (ms << 22 | shard << 12 | seq), assigned when the shard applies the STORE *)
   e_ctx : N;    (* context id *)
-  e_v : N }.    (* integer payload field used by WHERE *)
+  e_v : N;      (* integer payload field used by WHERE *)
+  e_type : N }. (* event type (several types with the same field layout) *)
 
 Inductive tfield := TCore | TPayload.
 Inductive cmp := CEq | CGe | CLt.
@@ -76,7 +83,8 @@ Record query := mkQuery {
   q_tf : tfield;                 (* USING <payload time field> or the core timestamp *)
   q_tf_returned : bool;          (* is the time-field column part of the result schema
                                     (always for the core timestamp; for a payload field unless RETURN omits it) *)
-  q_limit : option N }.
+  q_limit : option N;
+  q_type : N }.                  (* the event type queried *)
 
 Definition tfval (q : query) (e : event) : N :=
   match q_tf q with TCore => e_ts e | TPayload => e_pt e end.
@@ -95,7 +103,8 @@ Definition since_blind (q : query) : bool :=
   end.
 
 Definition matches_at (disk : bool) (q : query) (e : event) : bool :=
-  (match q_ctx q with None => true | Some c => e_ctx e =? c end)
+  (e_type e =? q_type q)
+  && (match q_ctx q with None => true | Some c => e_ctx e =? c end)
   && (match q_where q with None => true | Some (c, n) => cmp_holds c (e_v e) n end)
   && (match q_since q with
       | None => true
@@ -220,7 +229,7 @@ Definition delta_query (q : query) (m : mark) : query :=
   if mark_zero m then q
   else mkQuery (q_ctx q) (q_where q)
          (Some (match q_since q with Some s => if s <? fst m then fst m else s | None => fst m end))
-         (q_tf q) (q_tf_returned q) (q_limit q).
+         (q_tf q) (q_tf_returned q) (q_limit q) (q_type q).
 
 Definition show_filter (q : query) (m : mark) (b : list event) : list event :=
   if wm_enabled q then filter (wm_pass q m) b else b.
@@ -413,7 +422,7 @@ Definition sel (q : query) (l : layout) : list event := filter (matches q) (cont
 
 Definition event_eqb (a b : event) : bool :=
   (e_k a =? e_k b) && (e_ts a =? e_ts b) && (e_pt a =? e_pt b) && (e_id a =? e_id b)
-  && (e_ctx a =? e_ctx b) && (e_v a =? e_v b).
+  && (e_ctx a =? e_ctx b) && (e_v a =? e_v b) && (e_type a =? e_type b).
 Definition in_events (e : event) (l : list event) : bool := existsb (event_eqb e) l.
 
 (** the frames appended by one REMEMBER / SHOW do not end with the frame carrying the largest row:
